@@ -6,10 +6,14 @@ DISK, MAXD, UNW, HAVOC = 64, 12, 66, 12
 
 # (H, n1, n2, start): record data lengths are shape parameters; contents are symbolic
 SHAPES_QUICK = [(1, 2, 3, 0, "true"), (1, 12, 2, 0, "false")]
+# first record straddles the (scaled) 32-byte read-ahead window boundary and is the last flushed one when the reader caches it:
+# the fill is "oversized" and rounded up to a page; the next record then starts inside that rounded-up tail
+SHAPE_OVERSIZED = (1, 4, 3, 20, "true")
 SHAPES_MORE = [(0, 0, 1, 0, "false"), (1, 3, 5, 20, "false"), (1, 0, 0, 0, "true"), (0, 3, 12, 0, "true"), (1, 7, 7, 5, "false"), (1, 12, 9, 3, "true"), (0, 2, 2, 22, "true"), (1, 1, 9, 14, "false"),
                (1, 2, 3, 0, "false"), (1, 12, 2, 0, "true")]
 SCEN = {
-    "reuse": ("reuse_after_flush::<{H}>({n1}, {n2}, {s}, {b})", "a reader whose read-ahead cache was filled before record 2 was flushed (tail beyond the flushed offset arbitrary at that time) returns exactly the on-disk record 2 / record 1 / OutOfBounds afterwards, any hint"),
+    "reuse": ("reuse_after_flush::<{H}>({n1}, {n2}, {s}, {b}, true)", "a reader whose read-ahead cache was filled before record 2 was flushed (tail beyond the flushed offset arbitrary at that time) returns exactly the on-disk record 2 / record 1 / OutOfBounds afterwards, any hint"),
+    "reusez": ("reuse_after_flush::<{H}>({n1}, {n2}, {s}, {b}, false)", "same as reuse, but the bytes beyond the flushed offset are still the preallocated zeros when the reader fills its cache"),
     "unflushed": ("unflushed_not_served::<{H}>({n1}, {n2}, {s}, {b})", "appended-but-unsynced bytes (buffered or flushed to the OS) are never returned; reads at/after the flushed offset fail; any offset, any hint"),
     "truncate": ("truncate_then_read::<{H}>({n1}, {n2}, {s}, {b})", "after set_len(o2) reads at o2 through a reader that cached the old record are refused, o1 still reads back"),
     "trunc_rewrite": ("truncate_rewrite::<{H}>({n1}, {n2}, {s}, {b})", "after set_len(o2) + append + sync, a read at o2 through a reader that cached the old record returns the NEW record"),
@@ -32,24 +36,26 @@ def instances(shapes):
 def native_replay(rp, workroot):
     import re
     from engine.core import replay_bin
-    m = re.match(r"c18_(reuse|truncate|trunc_rewrite|replace)_h(\d)_(\d+)_(\d+)_s(\d+)_([tf])", rp["harness"])
+    m = re.match(r"c18_(reusez|reuse|truncate|trunc_rewrite|replace)_h(\d)_(\d+)_(\d+)_s(\d+)_([tf])", rp["harness"])
     if not m:
         return None, "no native reproducer for this scenario (solver counterexample only)"
     sc, H, a, b, s, q = m.groups()
-    sc = {"trunc_rewrite": "truncate_rewrite"}.get(sc, sc)
+    sc = {"trunc_rewrite": "truncate_rewrite", "reusez": "reuse_oversized"}.get(sc, sc)
     return replay_bin("c18", [sc, a, b, s, 1 if q == "t" else 0])
 
 
 def generate(d):
-    lines = "\n".join(f"    fs_harness!(cheap, {n}, {UNW}, {{ {c} }});" for n, c, _ in instances(SHAPES_QUICK + SHAPES_MORE))
-    return units.seglog_overlay(d, ["seglog/fmodel.rs", "seglog/c18.rs"], consts={"DISK_BYTES": DISK, "MAXD": MAXD, "HAVOC": HAVOC, "INSTANCES": lines})
+    lines = "\n".join(f"    fs_harness!(cheap, {n}, {UNW}, {{ {c} }});" for n, c, _ in instances(SHAPES_QUICK + SHAPES_MORE + [SHAPE_OVERSIZED]))
+    # PAGE_SIZE is scaled to 16 here (not 8 as for C17): the rounded-up tail of an oversized read-ahead fill must be able to
+    # hold a whole record head (8 bytes) + small record, as it can with the real 4 KiB page (seed C18-2 hides otherwise)
+    return units.seglog_overlay(d, ["seglog/fmodel.rs", "seglog/c18.rs"], scale={"PAGE_SIZE": 16}, consts={"DISK_BYTES": DISK, "MAXD": MAXD, "HAVOC": HAVOC, "INSTANCES": lines})
 
 
 ENC = ("seglog::read::Reader::read_record", "seglog::read::Reader::read_record_sequential", "seglog::read::ReadAheadBuf::{read,fill,overlaps,invalidate}",
        "seglog::read::Reader::replace_header_with", "seglog::read::Iter::next_record",
        "seglog::write::Writer::{append,sync,flush_writer,set_len,prepare_data}", "std::io::BufWriter<File>")
 B = (f"segment {DISK} bytes; record data lengths concrete per instance (<= {MAXD}), contents/headers/unflushed tail/hints/offsets symbolic; "
-     f"READ_AHEAD_SIZE 32, PAGE_SIZE 8, OPTIMISTIC_DATA_SIZE 4, WRITE_BUF_SIZE 16 (scaled so that buffered, write-through, optimistic, fallback and large paths are all hit); unwind {UNW}")
+     f"READ_AHEAD_SIZE 32, PAGE_SIZE 16, OPTIMISTIC_DATA_SIZE 4, WRITE_BUF_SIZE 16 (scaled so that buffered, write-through, optimistic, fallback and large paths are all hit); unwind {UNW}")
 
 
 def spec(tier, seed):
@@ -61,6 +67,8 @@ def spec(tier, seed):
     straddle = [x for x in more if x[0] == "c18_replace_h1_12_9_s3_t"]
     more = [x for x in more if x[0] != "c18_replace_h1_12_9_s3_t"]
     quick = quick + straddle
+    over = [x for x in instances([SHAPE_OVERSIZED]) if x[0].startswith("c18_reusez_")]
+    quick = quick + over
     for name, _, obl in quick:
         # iteration over three records is the heaviest scenario: thorough tier only
         hs.append(Harness(name, obligation=obl, encodes=ENC, bounds=B, timeout_s=600 if "_iterate_" not in name else 2400,
